@@ -29,6 +29,9 @@ func (ex *Exec) input(name string, w int) *Term {
 	if !ex.inputSeen[name] {
 		ex.inputSeen[name] = true
 		ex.inputs = append(ex.inputs, inputVar{name: name, t: t})
+		if ex.fixed != nil {
+			ex.assume(ex.ts.Eq(t, ex.ts.Const(w, ex.fixed.Vars[name])))
+		}
 	}
 	return t
 }
@@ -38,6 +41,16 @@ func (ex *Exec) inputArr(name string, n int) *Term {
 	if !ex.inputSeen[name] {
 		ex.inputSeen[name] = true
 		ex.inputs = append(ex.inputs, inputVar{name: name, arr: t, n: n})
+		if ex.fixed != nil {
+			a := ex.fixed.Arrays[name]
+			for i := 0; i < n; i++ {
+				var v uint64
+				if i < len(a) {
+					v = a[i]
+				}
+				ex.assume(ex.ts.Eq(ex.ts.Select(t, ex.c64(uint64(i))), ex.ts.Const(8, v)))
+			}
+		}
 	} else {
 		for i := range ex.inputs {
 			if ex.inputs[i].name == name && ex.inputs[i].n < n {
@@ -177,7 +190,11 @@ func init() {
 	})
 	reg("vf:vfObserve", func(ex *Exec, fr *Frame, args []Value, site ssa.Instruction) Value {
 		t := args[1].(*Term)
-		ex.observes = append(ex.observes, ex.strArg(args[0])+"="+ex.ts.Show(t))
+		lab := ex.strArg(args[0])
+		if _, dup := ex.obsTerms[lab]; !dup {
+			ex.obsTerms[lab] = t
+			ex.obsOrder = append(ex.obsOrder, lab)
+		}
 		return nil
 	})
 	reg("vf:vfIsSymbolic", func(ex *Exec, fr *Frame, args []Value, site ssa.Instruction) Value {
@@ -434,9 +451,12 @@ func init() {
 		if s.arr == nil {
 			return nil
 		}
+		n := int(ex.concretize(s.len, "fillRand"))
+		if n <= 0 {
+			return nil
+		}
 		ex.counters["fillRand"]++
 		k := ex.counters["fillRand"]
-		n := int(ex.concretize(s.len, "fillRand"))
 		for i := 0; i < n; i++ {
 			ex.arrWrite(s.arr, ex.ts.Add(s.off, ex.c64(uint64(i))), ex.ts.Var(fmt.Sprintf("rand#%d_%d", k, i), 8))
 		}
